@@ -96,6 +96,51 @@ def check(prop, tier, seed, spec):
                     del violations[key]
                 elif kind == "known":
                     vcheck.log("[C01] known finding %s %s at machine level (%s, secrets 0 vs %d: %d vs %d instructions)" % (key, "confirmed" if r["differs"] else "NOT reproduced", e["cls"], e["si"], r["n_instr"][0], r["n_instr"][1]))
+    # machine-level sweep: the uninstrumented build, every operation (quick: public class #0; thorough: all classes)
+    per_class = {}
+    with open(trace) as fh:
+        for line in fh:
+            e = json.loads(line)
+            if e["cls"] not in per_class:
+                per_class[e["cls"]] = (e["form"], e["n"], e["vt"])
+    markers = lackey.build_plain()
+    sel = [c for c in per_class if tier == "thorough" or c.endswith("#0")]
+    def secrets_for(c):
+        n = max(1, per_class[c][1])
+        k = max(2, min(12 if tier == "quick" else 40, (400_000 if tier == "quick" else 3_000_000) // n))
+        return list(range(k))
+    sweep = []
+    t1 = time.time()
+    with ThreadPoolExecutor(max_workers=12) as ex:
+        futs = [ex.submit(lackey.sweep_class, c, secrets_for(c), seed, nsec, markers) for c in sel]
+        sweep = [fu.result() for fu in futs]
+    mdiv = [r for r in sweep if r["divergent"]]
+    maddrs = sorted({d["first"][3] for r in mdiv for d in r["divergent"][:1]} | {d["first"][4] for r in mdiv for d in r["divergent"][:1]})
+    msym = lackey.symbolise(maddrs)
+    m_known = {}
+    for r in mdiv:
+        d = r["divergent"][0]
+        # the last common instruction (the conditional branch, or the instruction making the differing access) and
+        # its inline stack; the site is the innermost frame that is not one of the generic mask helpers
+        fb = [(fn.split("<")[0], loc) for fn, loc in msym.get(d["first"][3], []) if "/leak/src/" not in loc]
+        fw = [(fn.split("<")[0], loc) for fn, loc in msym.get(d["first"][4], []) if "/leak/src/" not in loc]
+        crate = [(fn, loc) for fn, loc in fb if "/src/const_choice.rs" not in loc and "/src/limb/cmp.rs" not in loc and "/rustc/" not in loc and "/subtle" not in loc]
+        site = crate[0][0] if crate else (fb[0][0] if fb else "?")
+        e = dict(p="C01", op="leak", form=per_class[r["cls"]][0], cls=r["cls"], si=d["si"], k="ok", level="machine",
+                 site=site, site_loc=[loc for _, loc in fb] + [loc for _, loc in fw[:1]], sites=[fn for fn, _ in fb],
+                 branch_stack=["%s (%s)" % (fn, loc) for fn, loc in fb],
+                 instructions="%d vs %d" % tuple(d["n_instr"]), first_entry="#%d: %s | %s" % tuple(d["first"][:3]), divergent_secrets=len(r["divergent"]))
+        fd = vcheck.match_finding(e, findings, "C01")
+        if fd:
+            known.setdefault(fd["id"], set()).add(e["form"])
+            m_known.setdefault(fd["id"], set()).add(e["form"])
+        else:
+            key = (e["form"], e["site"])
+            if key not in violations:
+                violations[key] = [(900000 + len(violations), e)]
+                machine[str(key)] = dict(kind="sweep", cls=r["cls"], si=d["si"], differs=True, n_instr=d["n_instr"], first=list(d["first"][:3]))
+    vcheck.log("[C01] machine level (valgrind lackey, uninstrumented build): %d classes x up to %d secrets compared in %.0fs; %d class(es) diverge, %d of them at known-finding sites"
+               % (len(sel), max(len(secrets_for(c)) for c in sel), time.time() - t1, len(mdiv), sum(1 for r in mdiv if any(per_class[r["cls"]][0] in v for v in m_known.values()))))
     # statistics
     classes, ops, vt_ops, lens = set(), set(), set(), 0
     samples = []
@@ -124,10 +169,12 @@ def check(prop, tier, seed, spec):
                        first_divergence=dict(event_index=e.get("dv"), kind={1: "edge", 2: "load", 3: "store", 4: "div", 5: "gep"}.get(e.get("dkind"), "?"), site=e["site"], locations=e["site_loc"])), open(path, "w"), indent=1)
         vcheck.log("VIOLATION property=C01 replay=%s" % path)
         ml = machine.get(str((form, site)), {})
-        vcheck.log("  operation=%s: leakage trace depends on a secret operand; first divergence in `%s` (%s) [%d run(s)]; confirmed on the uninstrumented build: %s vs %s instructions, first differing entry %s" % (form, site, " / ".join(e["site_loc"]), len(items), ml.get("n_instr", ["?"])[0], ml.get("n_instr", ["?", "?"])[1], ml.get("first")))
+        vcheck.log("  operation=%s: leakage trace depends on a secret operand; first divergence in `%s` (%s) [%d run(s)]; confirmed on the uninstrumented build: %s vs %s instructions, first differing entry %s" % (form, site, " / ".join(e["site_loc"][:3]), len(items), ml.get("n_instr", ["?"])[0], ml.get("n_instr", ["?", "?"])[1], ml.get("first")))
     cov = dict(states=max(1, states), transitions=max(1, states), traces_validated_against_impl=n, evaluations=n,
                distinct_nontrivial=len(classes), operations=len(ops), documented_vartime_operations=len(vt_ops), public_classes=len(classes), secrets_per_class=nsec,
-               leakage_events_observed=lens, divergent_runs=len(rej), machine_level_cross_checks=machine, ir_only_divergences=ir_only, known_findings_matched={k: sorted(v) for k, v in known.items()},
+               leakage_events_observed=lens, divergent_runs=len(rej), machine_level_cross_checks=machine, ir_only_divergences=ir_only,
+               machine_level_sweep=dict(classes=len(sel), instructions_compared=sum(r["n_instr"] * r["secrets"] for r in sweep), divergent_classes=sorted(r["cls"] for r in mdiv),
+                                        known_findings_matched={k: sorted(v) for k, v in m_known.items()}), known_findings_matched={k: sorted(v) for k, v in known.items()},
                rule="one event per run of an operation of the optimised, SanitizerCoverage-instrumented crate; a class = operation + public parameters; secrets from the adversarial pool (0, 1, MAX, 2^k, bit lengths multiple of the limb size, equal operands, modulus-1, random); non-trivial = a class (its runs must all show the same trace)",
                samples=samples, exhaustive=False)
     vcheck.write_evidence("C01", tier, seed, "exploration", cov, [
